@@ -173,7 +173,7 @@ func (m *Module) fnName(fn *ssa.Function) string {
 	}
 	s := fn.String()
 	s = strings.ReplaceAll(s, m.ModPath+"/", "")
-	s = strings.ReplaceAll(s, m.ModPath+".", "kernel.")
+	s = strings.ReplaceAll(s, m.ModPath+".", filepath.Base(m.ModPath)+".")
 	return s
 }
 
